@@ -2,7 +2,7 @@
 import linecache
 from typing import Any, Dict, List
 
-from icv.harness import Runtime, ErrInst
+from icv.harness import Runtime, ErrInst, ErrInstB
 
 import os as _os
 
@@ -73,7 +73,7 @@ def _cond_def(prog: dict, c: int, role: str, owner: int, params: List[str], inde
         lines.append("{}def errf_{}({}):".format(indent, c, esig))
         lines.append("{}    return H.errf({}, {!r}, {}, {})".format(indent, c, role, owner, ekw))
     if con["err"] == "class":
-        lines.append("{}class ErrClass_{}(Exception):".format(indent, c))
+        lines.append("{}class ErrClass_{}({}):".format(indent, c, "BaseException" if prog.get("errbase") else "Exception"))
         lines.append("{}    pass".format(indent))
         lines.append("{}H.err_class[{}] = ErrClass_{}".format(indent, c, c))
     return lines
@@ -292,7 +292,7 @@ def gen_source(prog: dict) -> str:
 def _mk_inst(rt: Runtime):  # type: ignore
     def mk(c: int) -> BaseException:
         if c not in rt.err_inst:
-            e = ErrInst("inst{}".format(c))
+            e = (ErrInstB if rt.prog.get("errbase") else ErrInst)("inst{}".format(c))
             e.c = c  # type: ignore
             rt.err_inst[c] = e
         return rt.err_inst[c]
